@@ -254,6 +254,27 @@ func init() {
 		}
 		return out
 	}
+	e[ethC+"HexToHash"] = func(fr *frame, args []value) value {
+		s := argString(args[0])
+		if bs, ok := parseAtom("ethhash", s); ok && len(bs) == 32 {
+			return array(bs)
+		}
+		if isMarked(s) {
+			panic(engineAbort{"HexToHash of a foreign symbolic string"})
+		}
+		raw := hexDecodeLoose(s)
+		out := make(array, 32)
+		for k := range out {
+			out[k] = uint8(0)
+		}
+		if len(raw) > 32 {
+			raw = raw[len(raw)-32:]
+		}
+		for k := range raw {
+			out[32-len(raw)+k] = raw[k]
+		}
+		return out
+	}
 	e[ethC+"IsHexAddress"] = func(fr *frame, args []value) value {
 		s := argString(args[0])
 		if _, ok := parseAtom("ethaddr", s); ok {
